@@ -246,7 +246,7 @@ func makeEntity(key *rsa.PrivateKey, name string) (*openpgp.Entity, error) {
 	if err := sig.SignUserId(uid.Id, entity.PrimaryKey, entity.PrivateKey, nil); err != nil {
 		return nil, err
 	}
-	entity.Identities[uid.Id] = &openpgp.Identity{Name: uid.Name, UserId: uid, SelfSignature: sig}
+	entity.Identities[uid.Id] = &openpgp.Identity{Name: uid.Name, UserId: uid, SelfSignature: sig, Signatures: []*packet.Signature{sig}}
 	return entity, nil
 }
 
